@@ -314,11 +314,11 @@ def run(ctx):
                               extra_targets=["Infer/Exec.vo"])
     core.build_harness(bins=["canon"])
     r = ctx.rng
-    nbase = ctx.n(450, 6000)
+    nbase = ctx.n(320, 6000)
     depth = ctx.n(3, 4)
     corpus = load_corpus()
     base = [gen_case(r, depth) for _ in range(nbase)]
-    malformed = [gen_case(r, 3, free_bound=True) for _ in range(ctx.n(60, 600))]   # free bound variables: canonicalize panics
+    malformed = [gen_case(r, 3, free_bound=True) for _ in range(ctx.n(40, 600))]   # free bound variables: canonicalize panics
 
     cases = []   # (tag, case sexp value, meta)
     for c in corpus:
@@ -478,7 +478,7 @@ def run(ctx):
     mism = 0
     for name, pairs, fn, eqb, ity, oty in specs:
         bad = coq_mismatches(ctx.work, name.replace("+", "_"), imports, fn=fn, eqb=eqb, in_ty=ity, out_ty=oty,
-                                  pairs=[(a, b) for a, b, _ in pairs], shard=ctx.n(120, 500))
+                                  pairs=[(a, b) for a, b, _ in pairs], shard=ctx.n(60, 400))
         ctx.cov["families"].setdefault("model==impl:" + name, {"cases": len(pairs), "nontrivial": len(pairs)})["mismatches"] = len(bad)
         for j in bad[:2]:
             mism += 1
